@@ -98,6 +98,11 @@ def contradicts(a, pi):
 
 def asn_of(name):
     from shangrla.raire import sample_estimator as se
+    if name == "nm":
+        # a difficulty function of the caller's own that decreases as the margin grows and is NOT positive: minus the
+        # margin as a share of the ballots, in [-1, 0) (C15 speaks of every such function; the initial lower bound -10
+        # of the search is still below every value)
+        return lambda w, l, o, t: -(w - l) / t
     return se.cp_estimate if name == "cp" else se.bp_estimate
 
 
@@ -129,6 +134,8 @@ def exact_asn(name):
     """the shipped difficulty functions as exact rationals of the integer tallies (o = tot - w - l):
     cp_estimate = 1/(2(w + o/2)/tot - 1) = tot/(w-l);  bp_estimate = 1/(p q^2), p=(w+l)/tot, q=(w-l)/(w+l)"""
     from fractions import Fraction
+    if name == "nm":
+        return lambda w, l, o, t: Fraction(-(w - l), t)
     if name == "cp":
         return lambda w, l, o, t: Fraction(t, 2 * w + o - t)
     return lambda w, l, o, t: Fraction((w + l) * t, (w - l) ** 2)
@@ -605,7 +612,7 @@ def gen_random(rng):
     u = rng.random()
     winner = true_order[-1] if u < 0.7 else rng.choice(cands)
     case = {"cands": cands, "sigs": sigs, "winner": winner, "tot": pick_tot(rng, sigs),
-            "outcome": pick_hint(rng, cands, wb), "asn": rng.choice(["cp", "bp"])}
+            "outcome": pick_hint(rng, cands, wb), "asn": rng.choice(["cp", "bp", "cp", "bp", "cp", "bp", "nm"])}
     if ids:
         case["ids"] = ids
     with_options(rng, case)
@@ -698,7 +705,7 @@ def gen_main(rng, n, tier):
     extra = []
     for c in cases[len(ex):][: nrand // 5]:
         d = dict(c)
-        d["asn"] = "bp" if c["asn"] == "cp" else "cp"
+        d["asn"] = "bp" if c["asn"] == "cp" else "cp"      # (a case with the caller's own function gets cp)
         d["outcome"] = [] if c["outcome"] else irv_order(c["cands"], ballots_of(c), rng)
         extra.append(d)
     cases += extra
@@ -809,7 +816,7 @@ def _oracle_c15(case, ir):
         d = ex(W, L, tot - (W + L), tot)
         if got_x is None or d > got_x:
             got_x, hardest = d, a
-    if got_x != opt_x and abs(got_x - opt_x) > opt_x / 10 ** 12:
+    if got_x != opt_x and abs(got_x - opt_x) > abs(opt_x) / 10 ** 12:
         return {"what": f"the hardest returned assertion {hardest['t']}({hardest['w']},{hardest['l']},{hardest['e']}) "
                         f"has difficulty {got_x} = {float(got_x)!r}; the least difficult sufficient set of true "
                         f"assertions has largest difficulty {opt_x} = {float(opt_x)!r} (hardest alternative order "
